@@ -68,6 +68,8 @@ def realise(rec, accel, prev_w=None):
         return d
     d["type"] = k
     wlen = 16 * (4 + kh * kw)
+    if rec.get("w1"):
+        cores = 1
     if rec["wb"] == 0:
         d["weights"] = [[0, FLASH_W + 0x400 * c, wlen] for c in range(cores)]
     else:
